@@ -8,6 +8,7 @@ import skeleton
 from pathsum import ERR, OK, SOME, St, show_term
 from skeleton import P, PE, pid_name
 
+RERUN_ON_CONFIGS = ("dfm", "std")
 LEVEL = "other"
 RULE_TEXT = ("C08-C: the payload class of each quoted-string recogniser denotes exactly all 256 bytes except the enclosing "
              "quote (so newline ; , : # and the other quote are payload) and the same byte opens and closes; the block "
